@@ -369,7 +369,9 @@ Fixpoint format_token (o : options) (t : token) (st : fstate) {struct t} : fstat
               let st := push [SP] (fmt_loc te (push [SP] st)) in
               match else_ with Some e => format_block o e st | None => st (* Rust: unwrap() panics; the parser never builds this *) end
           | NewLine =>
-              let st := fmt_loc te (push [NL] st) in
+              (* `else` starts a line of its own; when it already does, its trivia carries the line break *)
+              let st := if trivia_has_newline (l_trivia te) then st else push [NL] st in
+              let st := fmt_loc te st in
               match else_ with Some e => format_block o e st | None => st end
           end
       | None => st
